@@ -35,6 +35,9 @@ CATALOGUE = {
                theta=[0.2, 0.2, 3.0], x0=[-1.0, 1.0], positive=False, T=4.0),
     "LOG1": dict(states=["N"], params=["r", "K"],
                  odes=["r*N*(1-N/K)"], theta=[0.7, 60.0], x0=[8.0], positive=True, T=6.0),
+    # a seasonally forced model: time enters through a derived parameter (the observation window often starts at t0 != 0)
+    "SISF": dict(states=["S", "I"], params=["beta", "gamma"], derived=[["bt", "beta*(1+cos(t)/2)"]],
+                 odes=["-bt*S*I/100+gamma*I", "bt*S*I/100-gamma*I"], theta=[1.2, 0.5], x0=[85.0, 15.0], positive=True, T=6.0),
 }
 
 
@@ -60,7 +63,8 @@ def gen_model(rng, nS, nP):
 def build(md):
     import pg
     odes = [pg.Transition(origin=s, equation=e, transition_type=pg.TransitionType.ODE) for s, e in zip(md["states"], md["odes"])]
-    m = pg.model(state=list(md["states"]), param=list(md["params"]), ode=odes)
+    kw = dict(derived_param=[(k, v) for k, v in md["derived"]]) if md.get("derived") else {}
+    m = pg.model(state=list(md["states"]), param=list(md["params"]), ode=odes, **kw)
     m.parameters = [(p, v) for p, v in zip(md["params"], md["theta"])]
     return m
 
@@ -71,9 +75,13 @@ def reference_traj(md, theta, x0, ts):
     from scipy.integrate import solve_ivp
     xs = [sympy.Symbol(s) for s in md["states"]]
     ps = [sympy.Symbol(p) for p in md["params"]]
+    tsym = sympy.Symbol("t")
     loc = {str(s): s for s in xs + ps}
-    f = sympy.lambdify([xs, ps], [sympy.sympify(e, locals=loc) for e in md["odes"]], "math")
-    sol = solve_ivp(lambda t, x: f(list(x), list(theta)), (0.0, ts[-1]), x0, method="DOP853", t_eval=ts, rtol=1e-9, atol=1e-11)
+    loc["t"] = tsym
+    for k, v in md.get("derived") or []:
+        loc[k] = sympy.sympify(v, locals=loc)
+    f = sympy.lambdify([tsym, xs, ps], [sympy.sympify(e, locals=loc) for e in md["odes"]], "math")
+    sol = solve_ivp(lambda t, x: f(t, list(x), list(theta)), (0.0, ts[-1]), x0, method="DOP853", t_eval=ts, rtol=1e-9, atol=1e-11)
     return sol.y.T
 
 
@@ -82,7 +90,7 @@ def gen_case(rng, model_key=None, loss=None, force=None):
     """a JSON-able case; `force` is a dict of overrides (used by the corpus)"""
     force = force or {}
     if model_key is None:
-        model_key = str(rng.choice(list(CATALOGUE) + ["GEN"], p=[0.17, 0.2, 0.17, 0.12, 0.1, 0.08, 0.16]))
+        model_key = str(rng.choice(list(CATALOGUE) + ["GEN"], p=[0.15, 0.18, 0.15, 0.1, 0.1, 0.08, 0.1, 0.14]))
     if model_key == "GEN":
         md = gen_model(rng, int(rng.integers(2, 4)), int(rng.integers(2, 5)))
     else:
@@ -115,7 +123,7 @@ def gen_case(rng, model_key=None, loss=None, force=None):
         n = 1                 # a single observation of a single state
     t = np.round(np.linspace(md["T"] / n, md["T"], n) + rng.uniform(-0.05, 0.05, n), 3)
     t0, t_int = 0.0, False
-    if rng.random() < 0.25:
+    if rng.random() < (0.6 if md.get("derived") else 0.25):
         # a fractional initial time; and, when the horizon allows, an integer-typed observation grid
         t0 = float(rng.choice([0.5, 0.25]))
         if md["T"] >= 4:
